@@ -133,6 +133,11 @@ impl Visit for FieldGrab {
     }
 }
 
+/// Called at the start of every `RecCollector::register_callsite` (lets a harness emit from
+/// inside the callback, like the `EvilCollector`s of the existing deadlock tests).
+#[allow(clippy::type_complexity)]
+pub static REGISTER_HOOK: Mutex<Option<Arc<dyn Fn(&'static Metadata<'static>) + Send + Sync>>> = Mutex::new(None);
+
 pub struct Shared {
     pub id: u32,
     pub log: Mutex<Vec<Call>>,
@@ -196,6 +201,10 @@ impl Collect for RecCollector {
         self.0.push(c);
     }
     fn register_callsite(&self, m: &'static Metadata<'static>) -> Interest {
+        let hook = REGISTER_HOOK.lock().unwrap().clone();
+        if let Some(h) = hook {
+            h(m);
+        }
         let spec = self.0.spec.lock().unwrap().clone();
         let st = spec.static_accepts(rank(m.level()), m.target());
         let i = if spec.dynamic {
